@@ -413,10 +413,10 @@ func (f *Facts) path0(v ssa.Value) string {
 		return x.Op.String() + f.path(x.X)
 	case *ssa.FieldAddr:
 		st := x.X.Type().Underlying().(*types.Pointer).Elem().Underlying().(*types.Struct)
-		return "&" + strings.TrimPrefix(f.path(x.X), "&") + "." + st.Field(x.Field).Name()
+		return "&" + strings.TrimPrefix(f.path(x.X), "&") + "." + fname(st.Field(x.Field))
 	case *ssa.Field:
 		st := x.X.Type().Underlying().(*types.Struct)
-		return f.path(x.X) + "." + st.Field(x.Field).Name()
+		return f.path(x.X) + "." + fname(st.Field(x.Field))
 	case *ssa.IndexAddr:
 		return "&" + strings.TrimPrefix(f.path(x.X), "&") + "[" + f.path(x.Index) + "]"
 	case *ssa.Index:
